@@ -805,8 +805,8 @@ def _check(rep, tier):
     if not rep.violations and (ncounts["runs"] == 0 or ncounts["soc"] == 0 or ncounts["magnetic"] == 0 or ncounts["runs"] == ncounts["soc"] or ncounts["hexagonal"] == 0
                                    or (("skipped_private" not in rep.parts) and (ncounts["subgroup_runs"] == 0 or ncounts["site_frame_runs"] == 0))):
         raise MachineryError(f"symmetrize runs do not cover soc / no soc / magnetic / hexagonal / subgroup / site-dependent frames: {ncounts}")
-    rep.part("numeric_only", what="System_R.symmetrize on random Hermitian models: E(gk)=E(k), curvature/spin covariance for every (W, TR) of the "
-                                  f"specification's point group, Hermiticity, centre images, idempotence; tolerance {TOL:g} (Berry curvature {TOL_BERRY:g} at band "
+    rep.part("numeric_only", what="System_R.symmetrize (and symmetrize2 with a subgroup via use_symmetries_index / with site-dependent local frames) on random Hermitian models: E(gk)=E(k), curvature/spin covariance for every (W, TR) of the "
+                                  f"specification's point group (of the selected subgroup), Hermiticity, centre images, idempotence; tolerance {TOL:g} (Berry curvature {TOL_BERRY:g} at band "
                                   f"gaps >= {MIN_GAP}); library_* counters are information (System.check_symmetry, size of system.pointgroup)",
              counts=ncounts, max_residual=maxres)
     if recs:
